@@ -2,6 +2,6 @@ package main
 
 func init() {
 	props["C32"] = &propCfg{Engine: "connsim", Test: "TestC32", Level: "exploration",
-		Quick:    tierCfg{Runs: 48000, BudgetS: 120},
+		Quick:    tierCfg{Runs: 32000, BudgetS: 120},
 		Thorough: tierCfg{Runs: 2400000, JobSize: 15000, BudgetS: 1500}}
 }
